@@ -64,7 +64,7 @@ def realise(hist, eol=b"\n", xref_w=(1, 4, 2), zero_type_width=False):
                              trailer_style=int(zero_type_width),
                              # ... and how cross-reference and object streams are packed, and whether the objects a
                              # later revision redefines carry generation 1 (a reused free entry)
-                             xref_pack=["flate", "png", "none"][int(zero_type_width)],
+                             xref_pack=["flate", "pngmix" if len(hist) % 2 else "png", "none"][int(zero_type_width)],
                              objstm_pack=["flate", "none", "hex"][int(zero_type_width)],
                              gens={p + 2: 1 for p in r["defs"] if p not in r["packed"]} if (zero_type_width == 1 and k > 1) else None,
                              xref_w=_special_w(xref_w, zero_type_width) if (zero_type_width and k > 1 and r["form"] == "stream"
